@@ -154,7 +154,7 @@ class Gen(object):
         from collada import light
         r = self.rng
         k = r.choice(['dir', 'amb', 'point', 'spot'])
-        col = self.color(3)
+        col = self.color(3 if self.o['schema'] else r.choice([3, 3, 4]))     # loaders and constructors keep an RGBA light colour
         opt = lambda: r.choice([None, self.pyfloat()])
         if k == 'dir':
             return light.DirectionalLight(self.uid('light'), col)
@@ -180,11 +180,13 @@ class Gen(object):
         r = self.rng
         gid = self.uid('geom')
         nv = r.randint(1, 7)
-        srcs = [source.FloatSource(gid + '-pos', numpy.array([self.f32() for _ in range(3 * nv)], dtype=numpy.float32), ('X', 'Y', 'Z'))]
+        # geometry built through the API from ordinary numpy arrays is float64
+        dt = numpy.float64 if self.o.get('f64') and r.random() < 0.5 else numpy.float32
+        srcs = [source.FloatSource(gid + '-pos', numpy.array([self.f32() for _ in range(3 * nv)], dtype=dt), ('X', 'Y', 'Z'))]
         nn = r.randint(1, 5)
         has_n = r.random() < 0.7
         if has_n:
-            srcs.append(source.FloatSource(gid + '-nor', numpy.array([self.f32() for _ in range(3 * nn)], dtype=numpy.float32), ('X', 'Y', 'Z')))
+            srcs.append(source.FloatSource(gid + '-nor', numpy.array([self.f32() for _ in range(3 * nn)], dtype=dt), ('X', 'Y', 'Z')))
         ntex = r.randint(0, 2)
         nt = []
         for t in range(ntex):
